@@ -1130,12 +1130,12 @@ IDSET_DELEGATIONS = [
     ("yrs::id_set::IdSet::get", r"IdMapInner::get$", {0: "self.0", 1: "client_id"}, None),
     ("yrs::id_set::IdSet::is_empty", r"IdMapInner::is_empty$", {0: "self.0"}, None),
     ("yrs::id_set::IdSet::len", r"IdMapInner::len$", {0: "self.0"}, None),
-    ("yrs::id_set::IdSet::merge", r"IdMapInner::merge$", {0: "self.0", 1: "other.0"}, None),
-    ("yrs::id_set::IdSet::merge_with", r"IdMapInner::merge_with$", {0: "self.0", 1: "other.0"}, None),
-    ("yrs::id_set::IdSet::diff", r"IdMapInner::diff$", {0: "self.0", 1: "other.0"}, None),
-    ("yrs::id_set::IdSet::diff_with", r"IdMapInner::diff_with$", {0: "self.0", 1: "other.0"}, None),
-    ("yrs::id_set::IdSet::intersect", r"IdMapInner::intersect$", {0: "self.0", 1: "other.0"}, None),
-    ("yrs::id_set::IdSet::intersect_with", r"IdMapInner::intersect_with$", {0: "self.0", 1: "other.0"}, None),
+    ("yrs::id_set::IdSet::merge", r"IdMapInner::merge$", {0: "self.0", 1: "other.0"}, None, ("other",)),
+    ("yrs::id_set::IdSet::merge_with", r"IdMapInner::merge_with$", {0: "self.0", 1: "other.0"}, None, ("other",)),
+    ("yrs::id_set::IdSet::diff", r"IdMapInner::diff$", {0: "self.0", 1: "other.0"}, None, ("other",)),
+    ("yrs::id_set::IdSet::diff_with", r"IdMapInner::diff_with$", {0: "self.0", 1: "other.0"}, None, ("other",)),
+    ("yrs::id_set::IdSet::intersect", r"IdMapInner::intersect$", {0: "self.0", 1: "other.0"}, None, ("other",)),
+    ("yrs::id_set::IdSet::intersect_with", r"IdMapInner::intersect_with$", {0: "self.0", 1: "other.0"}, None, ("other",)),
     ("yrs::id_set::IdSet::insert", r"IdMapInner::entry$", {0: "self.0", 1: "id.client"}, None),
     ("yrs::id_set::IdSet::insert", r"IdRanges::insert$", {1: "Range{id.clock, (id.clock + len)}"}, None),
     (_IM + "contains", r"BTreeMap::get$", {0: "self.0", 1: "id.client"}, None),
@@ -1148,8 +1148,8 @@ IDSET_DELEGATIONS = [
     (_IM + "insert_range", r"IdRanges::insert_with$", {1: "range", 2: "value"}, None),
     ("yrs::id_map::IdMap::contains", r"IdMapInner::contains$", {0: "self.inner", 1: "id"}, None),
     ("yrs::id_map::IdMap::is_empty", r"IdMapInner::is_empty$", {0: "self.inner"}, None),
-    ("yrs::id_map::IdMap::intersect_with", r"IdMapInner::intersect_with$", {0: "self.inner", 1: "other.inner"}, None),
-    ("yrs::id_map::IdMap::merge_with", r"IdMapInner::merge_with$", {0: "self.inner", 1: "other.inner"}, None),
+    ("yrs::id_map::IdMap::intersect_with", r"IdMapInner::intersect_with$", {0: "self.inner", 1: "other.inner"}, None, ("other.inner",)),
+    ("yrs::id_map::IdMap::merge_with", r"IdMapInner::merge_with$", {0: "self.inner", 1: "other.inner"}, None, ("other.inner",)),
     ("yrs::id_map::IdMap::insert", r"IdMapInner::insert_range$", {0: "self.inner", 1: "range.client", 2: "BlockRange::clock_range(range)", 3: "ContentAttributes{attrs}"}, None),
     ("yrs::id_map::IdMap::remove", r"IdMapInner::entry$", {0: "self.inner", 1: "range.client"}, None),
     ("yrs::id_map::IdMap::remove", r"IdRanges::remove$", {1: "BlockRange::clock_range(range)"}, None),
@@ -1194,7 +1194,9 @@ def api_delegations(R, ctx, rid, table=None, what=None):
 def _delegations(R, Y, rid, table, floor):
     from .accessors import _canon
     n = 0
-    for path, callee, want, guard in table:
+    for entry in table:
+        path, callee, want, guard = entry[:4]
+        untouched = entry[4] if len(entry) > 4 else ()
         fn = Y.fn(path)
         v = FnView(fn)
         css = fn.calls_to("re:" + callee)
@@ -1212,6 +1214,20 @@ def _delegations(R, Y, rid, table, floor):
                     bad.append("argument %d = %s lacks %s" % (idx, got, exp[1]))
             elif got != exp:
                 bad.append("argument %d = %s — expected %s" % (idx, got, exp))
+        for pname in untouched:
+            # the operand reaches the worker as the caller passed it: no other call of this function takes it (or a part of it)
+            # before the delegation, and the delegation runs on every path
+            base = pname.split(".")[0]
+            sub = pname.split(".")[1:]
+            for other in fn.calls():
+                if other is cs or other.bb == cs.bb or not fn.cfg().dominates(other.bb, cs.bb):
+                    continue
+                for i in range(len(other.args)):
+                    a = simp_deep(v.arg(other, i, 8))
+                    if root_name(a) == base and (not sub or field_path(a)[:len(sub)] == sub or not field_path(a)):
+                        bad.append("%s is handed to %s before the delegation" % (pname, F.strip_generics(other.name).rsplit("::", 1)[-1]))
+            if not fn.cfg().postdominates(cs.bb, 0):
+                bad.append("the delegation does not run on every path")
         if guard:
             okg = v.has_guard(cs.bb, lambda l: isinstance(l.term, tuple) and l.term[0] == "call" and l.term[1].endswith(guard) and l.polarity is True)
             if not okg:
